@@ -68,6 +68,8 @@ def run(ctx, tier):
     check_prefilter(ctx, fxs["avx512"], fxs["release"])
     ctx.set_config("devchecks")
     check_assertions(ctx, fxs["devchecks"], fxs["release"])
+    ctx.set_config("devchecks")
+    check_consistency_predicate(ctx, fxs["devchecks"])
     ctx.set_config("amalgamated")
     check_amalgamation(ctx, fxs["amalgamated"], fxs["release"])
 
@@ -304,6 +306,47 @@ def check_avx512_ipv4(ctx, fx):
 
 # ---------------------------------------------------------------------------
 # non-const overloads that only hand out a reference; a write through it is an assignment node and is checked as such
+def check_consistency_predicate(ctx, fx):
+    """K7.  url_components::check_offset_consistency() is what ADA_ASSERT_TRUE(validate()) asserts after every edit when
+    development checks are on.  Every component may be empty ("foo:" has protocol_end == username_end == host_start ==
+    host_end == pathname_start; "foo:#x" has hash_start == pathname_start; "foo:?q" has search_start == pathname_start), so
+    adjacent offsets may be equal and the predicate may reject an offset only when it is *smaller* than the running
+    position.  A non-strict comparison makes the assertion fire — and the checks-on build abort — on valid URLs."""
+    from lib.norm import cmp_norm
+    f = fx.fn1("ada::url_components::check_offset_consistency")
+    blk = {b["id"]: b for b in f["blocks"]}
+    n = 0
+    for b in f["blocks"]:
+        t = b["term"]
+        c = t.get("econd") if t.get("econd") is not None else t.get("cond")
+        if c is None:
+            continue
+        names = {x.get("name") or x.get("field") for x in X.walk(c) if x.get("k") in ("ref", "member")}
+        if "index" not in names:
+            continue
+        chain = names & {"protocol_end", "username_end", "host_start", "host_end", "pathname_start", "search_start", "hash_start"}
+        if not chain:
+            continue
+        rej = None
+        for e in b["succ"]:
+            tgt = blk[e["to"]]
+            if any(st["k"] == "return" and X.const_val(st.get("e")) == 0 for st in tgt["stmts"]):
+                rej = e["when"] == "true"
+        if rej is None:
+            continue
+        n += 1
+        nf = cmp_norm(c, rej)
+        off = sorted(chain)[0]
+        ok = nf is not None and nf[0] == "lt" and nf[2] == 0 and any(t_.startswith("+") and off in t_ for t_ in nf[1]) \
+            and any(t_ == "-index" for t_ in nf[1])
+        txt = t.get("econd_text") or t.get("cond_text")
+        ctx.check("K7", "check_offset_consistency: `%s`" % txt, ok, "rejects only %s < running position" % off,
+                  "the predicate rejects when `%s`: it refuses %s == position although the component in front of it may be empty, so "
+                  "ADA_ASSERT_TRUE(validate()) fires on valid URLs in the development-checks build" % (txt, off),
+                  where=(t.get("loc") or "").replace("/repo/", ""))
+    ctx.floor("K7", n, 5, "offset-order comparisons in check_offset_consistency")
+
+
 ACCESSORS = {"operator->", "operator*", "value", "begin", "end", "data", "operator[]", "at", "front", "back"}
 
 
